@@ -165,10 +165,21 @@ class C05(Check):
             # the same through every carrier (2 values per kind: the first and the last of the boundary set)
             for car in CARRIERS:
                 for k in ("int", "bigint", "float"):
-                    for a in (0, len(N.VALUES[k]) - 1):
+                    for a in (0, len(N.VALUES[k]) - 1 - (len(N.NONFINITE) if k == "float" else 0)):
                         yield ("un", "-", k, a, car)
                 yield ("un", "!", "bool", 0, car)
                 yield ("un", "!", "bool", 1, car)
+
+        def nonfinite():
+            # inf, -inf and NaN (no literal denotes them) against one another and against three values of every kind
+            for op in OPS:
+                for k in KINDS:
+                    others = list(range(3)) + (list(N.NONFINITE) if k == "float" else [])
+                    for nf in N.NONFINITE:
+                        for o in others:
+                            yield ("bin", op, "float", nf, k, o)
+                            if not (k == "float" and o in N.NONFINITE):
+                                yield ("bin", op, k, o, "float", nf)
 
         def carried(vals_n):
             for c in cells(vals_n):
@@ -193,7 +204,7 @@ class C05(Check):
                         if c1 != c2:
                             yield ("pair", op, c1, c2)
 
-        ls = [("L0-unary", list(unary())), ("Lq-two-cells-of-one-operator-in-one-program", list(pairs()) if tier == "thorough" else list(pairs())[::4]), (f"L1c-op-assignment-onto-variable-element-field-map-entry-captured-{min(nv, 8)}-values", opassigned(min(nv, 8))), ("L1-3-values", list(cells(3))), ("L1b-values-through-8-carriers", carried(3 if tier == "thorough" else 2)),
+        ls = [("L0-unary", list(unary())), ("Lq-two-cells-of-one-operator-in-one-program", list(pairs()) if tier == "thorough" else list(pairs())[::4]), (f"L1c-op-assignment-onto-variable-element-field-map-entry-captured-{min(nv, 8)}-values", opassigned(min(nv, 8))), ("L1-3-values", list(cells(3))), ("L1n-non-finite-floats", list(nonfinite())), ("L1b-values-through-8-carriers", carried(3 if tier == "thorough" else 2)),
               (f"L2-{nv}-values", cells(nv))]
         return ls
 
